@@ -31,12 +31,14 @@ import numpy as np  # noqa: E402
 ID = "C19"
 LEAN_MODULES = ["StraxModel.Props.C19"]
 TRUSTED = [
-    "modelled not verified: numpy slicing/reshape/repeat, numba loop and generator semantics, float32/float64 arithmetic "
-    "(the model computes in exact rationals)",
+    "modelled not verified: numpy slicing/reshape/repeat, numba loop and generator semantics",
     "the implementation side runs in forked worker processes (same interpreter, same /repo import) to compile the numba "
     "kernels in parallel",
 ]
 ASSUMPTIONS = [
+    "NARROWING of 'for all hit sets': float32/float64 rounding is outside the model (exact rationals) AND outside the generated "
+    "inputs - non-dyadic to_pe (every real gain), non-dyadic areas / sample values and sums that are inexact in float32 are "
+    "never generated, so e.g. a change of the accumulation precision is invisible to this check",
     "floats are modelled as exact rationals; the harness only feeds inputs on which float32/float64 arithmetic is exact: "
     "integer hit/peak times, integer or dyadic sample values and hit areas, dyadic to_pe, power-of-two up-sampling factors, "
     "power-of-two total areas and dyadic fractions for index_of_fraction / compute_widths (n_widths = 5)",
@@ -60,6 +62,8 @@ NO_MORE_SPLITS = -9999999
 
 KNOWN_TAIL = "non-zero tail dropped by down-sampling"
 KNOWN_DURATION = "peaks overlap after a max_duration cut"
+KNOWN_DOUBLE_LEFT = "max_duration cut counts left_extension twice"
+KNOWN_FRAG_SHORT = "split fragment shortened by down-sampling"
 
 
 # ----------------------------------------------------------------------------- canonical text
@@ -326,6 +330,43 @@ def impl_splitreal(case):
     return sl.guarded(f)
 
 
+def impl_lmsplit(case):
+    """everything LocalMinimumSplitter.find_split_points yields for one waveform"""
+    from strax.processing.peak_splitting import LocalMinimumSplitter
+
+    def f():
+        w = np.array([float(fr(x)) for x in case["w"]], dtype=np.float32)
+        ys = list(LocalMinimumSplitter.find_split_points(w, 1, 0, float(fr(case["mh"])), float(fr(case["mr"]))))
+        return show_ints_([int(y[0]) for y in ys])
+    return sl.guarded(f)
+
+
+def show_ints_(xs):
+    return ",".join(str(x) for x in xs) if xs else "-"
+
+
+def op_lmsplit(case):
+    return f"c19.lmsplit {show_frs(case['w'])} {show_fr(fr(case['mh']))} {show_fr(fr(case['mr']))}"
+
+
+def oracle_lmsplit(case, out, aux):
+    """split indices strictly increasing inside (0, len(w)), closed with len(w) when there is one, then NO_MORE_SPLITS"""
+    if out.startswith("err"):
+        return f"unexpected {out}"
+    ys = [int(x) for x in out[3:].split(",")]
+    n = len(case["w"])
+    if ys[-1] != NO_MORE_SPLITS:
+        return "does not end with NO_MORE_SPLITS"
+    sp = ys[:-1]
+    if not sp:
+        return None
+    if sp[-1] != n:
+        return f"split points {sp} are not closed with len(w) = {n}: the last fragment would not end at the parent's end"
+    if any(a >= b for a, b in zip(sp[:-1], sp[1:])) or sp[0] <= 0:
+        return f"split points {sp} not strictly increasing inside (0, {n}]"
+    return None
+
+
 def impl_sma(case):
     def f():
         a = np.array([float(fr(x)) for x in case["a"]], dtype=np.float64 if case.get("f64", True) else np.float32)
@@ -399,7 +440,7 @@ def op_hdr(case):
 IMPLS = {
     "findpeaks": (impl_findpeaks, aux_findpeaks), "store": (impl_store, None), "sumwf": (impl_sumwf, None),
     "merge": (impl_merge, None), "replace": (impl_replace, None), "lone": (impl_lone, None), "split": (impl_split, None),
-    "splitreal": (impl_splitreal, None), "sma": (impl_sma, None), "iof": (impl_iof, None), "widths": (impl_widths, None),
+    "splitreal": (impl_splitreal, None), "lmsplit": (impl_lmsplit, None), "sma": (impl_sma, None), "iof": (impl_iof, None), "widths": (impl_widths, None),
     "hdr": (impl_hdr, aux_hdr),
 }
 
@@ -416,7 +457,7 @@ def _worker(jobs):
 # ----------------------------------------------------------------------------- oracles
 def first_failure(msgs):
     """prefer a failure that is NOT a recorded finding, so that a finding never masks another violation"""
-    known = (KNOWN_TAIL, KNOWN_DURATION)
+    known = (KNOWN_TAIL, KNOWN_DURATION, KNOWN_DOUBLE_LEFT, KNOWN_FRAG_SHORT)
     for m in msgs:
         if not any(k in m for k in known):
             return m
@@ -476,26 +517,37 @@ def oracle_findpeaks(case, out, aux):
             end = max(end, hit_end(h))
         if p["max_gap"] != mg:
             msgs.append(f"max_gap {p['max_gap']} != {mg}")
-    # 3. boundaries between consecutive clusters: far, or justified by the duration limit
+    # 3. boundaries between consecutive clusters. The property's reading of the duration cut (docstring: "max duration
+    #    time of merged peak"): a hit that is not far is added unless the peak would then last longer than max_duration,
+    #    duration = latest end - first start + left + right. (What happens to a peak that is ALREADY longer than
+    #    max_duration - a single over-long hit - is not specified; either outcome is accepted there.)
+    def duration(first, end):
+        return end - first[0] + left + right
     for k in range(len(groups) - 1):
         g, nx = groups[k], groups[k + 1][0]
         end = max(hit_end(h) for h in g)
         far = nx[0] - end >= gap
-        span = hit_end(nx) - g[0][0] + left + right      # duration of the peak if the next hit were included
+        a, b = uncut[k], uncut[k + 1]
         if not far:
-            if span + left <= max_dur:
-                msgs.append(f"split between hits {end} and {nx[0]} although gap {nx[0] - end} < {gap} and duration {span} fits {max_dur}")
-            a, b = uncut[k], uncut[k + 1]
+            d_now, d_next = duration(g[0], end), duration(g[0], max(end, hit_end(nx)))
+            if d_now > max_dur or d_next > max_dur:
+                pass                                    # justified (or unspecified) cut
+            elif hit_end(nx) - g[0][0] + 2 * left + right > max_dur:
+                msgs.append(f"{KNOWN_DOUBLE_LEFT}: hits up to {end} and hit [{nx[0]},{hit_end(nx)}) are split although the merged "
+                            f"peak would last {d_next} <= max_duration {max_dur} (left_extension {left})")
+            else:
+                msgs.append(f"split between hits {end} and {nx[0]} although gap {nx[0] - end} < {gap} and duration {d_next} fits {max_dur}")
             if b["time"] < a["time"] + a["dt"] * a["length"]:
                 msgs.append(f"{KNOWN_DURATION}: [{a['time']},{a['time'] + a['dt'] * a['length']}) and [{b['time']},{b['time'] + b['dt'] * b['length']})")
         else:
-            a, b = uncut[k], uncut[k + 1]
             if b["time"] - (a["time"] + a["dt"] * a["length"]) < gap - left - right:
                 msgs.append("peaks separated by less than threshold - extensions")
-    for k, g in enumerate(groups):          # no missed duration cut
-        for j in range(1, len(g)):
-            if hit_end(g[j]) - g[0][0] + left + right > max_dur + 0 and hit_end(g[j]) - g[0][0] + 2 * left + right > max_dur:
-                msgs.append(f"peak keeps a hit although it then lasts {hit_end(g[j]) - g[0][0] + left + right} > max_duration {max_dur}")
+    for g in groups:                        # no missed duration cut
+        end = hit_end(g[0])
+        for h in g[1:]:
+            if duration(g[0], end) <= max_dur < duration(g[0], max(end, hit_end(h))):
+                msgs.append(f"peak keeps hit [{h[0]},{hit_end(h)}) although it then lasts {duration(g[0], max(end, hit_end(h)))} > max_duration {max_dur}")
+            end = max(end, hit_end(h))
     # 4. time order
     for a, b in zip(uncut[:-1], uncut[1:]):
         if b["time"] < a["time"]:
@@ -721,10 +773,12 @@ def oracle_split(case, out, aux):
 
 
 def oracle_splitreal(case, out, aux):
+    """splitting tiles the parent's time span without gaps or overlap and conserves the area"""
     if out.startswith("err"):
         return f"unexpected {out}"
     before, after = out[3:].split(" ")
     parents, res = parse_peaks(before), parse_peaks(after)
+    dt0 = case["dt"]
     msgs = []
     for p in parents:
         s, e = p["time"], p["time"] + p["dt"] * p["length"]
@@ -734,18 +788,36 @@ def oracle_splitreal(case, out, aux):
             continue
         if len(inside) == 1 and (inside[0]["time"], inside[0]["length"], inside[0]["dt"]) == (p["time"], p["length"], p["dt"]):
             continue        # not split
-        t = s
+        if inside[0]["time"] != s:
+            msgs.append(f"fragments of [{s},{e}) start at {inside[0]['time']}")
+            continue
         ok = True
-        for q in inside:
-            if q["time"] != t:
-                msgs.append(f"fragments of [{s},{e}) leave a gap or overlap at {t}")
-                ok = False
-                break
-            t = q["time"] + q["dt"] * q["length"]
-        if ok and t != e:
-            msgs.append(f"fragments of [{s},{e}) end at {t}, the parent at {e}")
-        elif ok and sum(q["area"] for q in inside) != p["area"]:
-            msgs.append(f"fragment areas {sum(q['area'] for q in inside)} != parent area {p['area']}")
+        for q, nxt in zip(inside, [x["time"] for x in inside[1:]] + [e]):
+            end = q["time"] + q["dt"] * q["length"]
+            if end == nxt:
+                continue
+            ok = False
+            # the one recorded way to miss: the fragment [q.time, nxt) of L0 samples did not fit the buffer, was
+            # down-sampled by f = ceil(L0 / N_S) and shortened to floor(L0 / f) * f samples (D11 mechanism)
+            span = nxt - q["time"]
+            l0, rem = divmod(span, dt0)
+            f = max(1, down_factor(l0))
+            if end < nxt and rem == 0 and f > 1 and q["dt"] == f * dt0 and q["length"] == l0 // f and nxt - end == (l0 % f) * dt0:
+                msgs.append(f"{KNOWN_FRAG_SHORT}: fragment [{q['time']},{nxt}) of {l0} samples into {N_S} (factor {f}) stored as "
+                            f"{q['length']} x {q['dt']} ns, [{end},{nxt}) of parent [{s},{e}) uncovered")
+            elif end < nxt:
+                msgs.append(f"fragments of [{s},{e}) leave a gap [{end},{nxt})")
+            else:
+                msgs.append(f"fragments of [{s},{e}) overlap at {nxt}")
+        fsum, stored = sum(q["area"] for q in inside), sum(p["data"][:p["length"]])
+        if fsum != p["area"]:
+            if p["dt"] > dt0 and fsum == stored:
+                # the parent itself lost a non-zero tail when it was down-sampled (D11): its area still counts the tail,
+                # its time span and waveform - and therefore the fragments - do not
+                msgs.append(f"{KNOWN_TAIL}: parent of split stored as {p['length']} x {p['dt']} ns: area {p['area']}, "
+                            f"sum(data) {stored} = sum of the fragment areas")
+            else:
+                msgs.append(f"fragment areas {fsum} != parent area {p['area']}")
     return first_failure(msgs)
 
 
@@ -930,7 +1002,7 @@ def fp_cases(ctx):
                 chans = [i % 2 for i in range(n)]
                 hits = [[t, l, 1, c, 1] for t, l, c in zip(ts, lens, chans)]
                 for gap, left, right in ((2, 0, 0), (3, 1, 1), (4, 2, 1), (6, 1, 3)):
-                    for max_dur in (5, 9, 1000):
+                    for max_dur in (8, 13, 1000):
                         for min_area, min_ch in ((0, 1), (2, 1), (0, 2)):
                             exh.append(dict(hits=hits, to_pe=[1, 1, 1, 1], gap=gap, left=left, right=right, min_area=min_area,
                                             min_ch=min_ch, max_dur=max_dur, wellformed=True))
@@ -942,7 +1014,7 @@ def fp_cases(ctx):
         gap = left + right + rng.randint(1, 8)
         rnd.append(dict(hits=hits, to_pe=[rng.choice(TOPES) for _ in range(N_CH)], gap=gap, left=left, right=right,
                         min_area=rng.choice([0, 0, 1, 2, 4, "7/2"]), min_ch=rng.choice([1, 1, 2, 3]),
-                        max_dur=rng.choice([6, 10, 15, 25, 60, 10_000_000]), wellformed=True))
+                        max_dur=rng.choice([8, 15, 25, 40, 60, 10_000_000, 10_000_000]), wellformed=True))
     for _ in range(ctx.pick(1500, 15000)):
         n_ch = rng.randint(1, 4)
         hits = gen_hits(rng, rng.randint(0, 8), n_ch, sorted_=rng.random() < 0.5, areas=[0, 1, 2, -1, "1/2"])
@@ -1138,16 +1210,16 @@ def splitreal_cases(ctx):
     rng = ctx.rng
     cases = []
     while len(cases) < ctx.pick(300, 3000):
-        # two or three bumps in one or two channels, one parent peak spanning everything (<= N_S samples, so that the
-        # fragments are not down-sampled), with or without a zero sample after the last hit
-        bumps = [rng.choice([[8], [8], [4, 8], [8, 4], [8, 8]]) for _k in range(rng.randint(2, 3))]
+        # two to four bumps in one or two channels and one parent peak spanning everything, with or without zero samples
+        # after the last hit; parents of 4..40 samples, i.e. also parents (and fragments) longer than the N_S-sample buffer
+        wide = rng.random() < 0.5
+        bumps = [rng.choice([[8], [8], [4, 8], [8, 4], [8, 8]] + ([[8] * 6, [4, 8, 8, 8, 4], [8] * 8] if wide else []))
+                 for _k in range(rng.randint(2, 4 if wide else 3))]
         hits, t = [], rng.randint(0, 1)
         for b in bumps:
             hits.append([t, len(b), 1, rng.randrange(2), sum(b), b])
-            t += len(b) + rng.randint(1, 2)
-        end = hit_end(hits[-1]) + rng.choice([0, 0, 1])
-        if end > N_S:
-            continue
+            t += len(b) + rng.randint(1, 8 if wide else 2)
+        end = hit_end(hits[-1]) + rng.choice([0, 0, 1, 2])
         alg = rng.choice(["local_minimum", "natural_breaks"])
         cases.append(dict(dt=1, to_pe=[1, 1, 1, 1], hits=hits, peaks=[dict(time=0, length=end, dt=1)], algorithm=alg,
                           min_height=1, threshold=rng.choice(["1/8", "1/2"])))
@@ -1281,7 +1353,9 @@ def _components(ctx):
         branch=lambda c, o: o.split(" ")[0] + ("" if o.startswith("ok") else ":" + o.split(" ")[1]),
         rule="non-increasing / out-of-range split indices, orig_dt 0 or not dividing dt: agreement with the model only")))
     comps.append(("split_peaks/real_splitters", "splitreal", splitreal_cases(ctx), None, oracle_splitreal, dict(
-        branch=lambda c, o: c["algorithm"], rule="strax.split_peaks end to end (find hits -> sum_waveform -> LocalMinimumSplitter / NaturalBreaksSplitter): tiling and area conservation, oracle only")))
+        branch=lambda c, o: c["algorithm"] + (":down-sampled parent" if c["peaks"][0]["length"] > N_S else ""),
+        nontrivial=lambda c, o: o.startswith("ok") and o.split(" ")[2].count(",") >= 1,
+        rule="strax.split_peaks end to end (hits -> sum_waveform -> LocalMinimumSplitter / NaturalBreaksSplitter) on parents of 4..40 samples (buffer 8): tiling and area conservation, oracle only; non-trivial = actually split")))
     # epoch-scale timestamps: the same inputs with every TIME shifted to a real acquisition epoch (~1.7e18 ns, beyond
     # 2**53): exact int64 arithmetic is translation invariant (and so is the model over unbounded Int), float64 is not
     n_ep = ctx.pick(1, 10)
@@ -1298,6 +1372,11 @@ def _components(ctx):
         comps.append(("epoch/" + name, kind, [shift_case(kind, c) for c in cases[:n * n_ep]], to_op, oracle, dict(
             nontrivial=lambda c, o: True, branch=lambda c, o: o.split(" ")[0] + ("" if o.startswith("ok") else ":" + o.split(" ")[1]),
             rule=f"the first cases of `{name}` with every hit / peak / row time shifted by T0 = {T0} (int64-safe; dt, lengths, thresholds small)")))
+    lm = [dict(w=list(w), mh=mh, mr=mr) for n in range(1, ctx.pick(6, 7) + 1) for w in itertools.product((0, 1, 2, 4), repeat=n)
+          for mh, mr in ((0, 0), (1, 0), (1, 2), (3, "1/2"))]
+    comps.append(("local_minimum_split_points", "lmsplit", lm, op_lmsplit, oracle_lmsplit, dict(
+        exhaustive=True, nontrivial=lambda c, o: "," in o, branch=lambda c, o: f"splits={max(0, o.count(',') - 1)}",
+        rule="LocalMinimumSplitter.find_split_points on every waveform of <= 6 samples over {0,1,2,4} x 4 (min_height, min_ratio); non-trivial = at least one split")))
     sma, iof, widths, hdr = helper_cases(ctx)
     comps.append(("symmetric_moving_average", "sma", sma, op_sma, oracle_sma, dict(
         exhaustive=True, nontrivial=lambda c, o: c["w"] >= 1 and len(c["a"]) >= 2, branch=lambda c, o: "w>n" if c["w"] > len(c["a"]) else ("w=0" if c["w"] == 0 else "w<=n"),
@@ -1313,7 +1392,7 @@ def _components(ctx):
     return comps
 
 
-GROUPS = [("findpeaks",), ("sumwf", "store"), ("merge",), ("replace", "lone"), ("split",), ("splitreal",), ("sma", "iof", "widths", "hdr")]
+GROUPS = [("findpeaks",), ("sumwf", "store"), ("merge",), ("replace", "lone"), ("split", "lmsplit"), ("splitreal",), ("sma", "iof", "widths", "hdr")]
 
 
 CRASH = "err Crash"
@@ -1386,7 +1465,7 @@ def evaluate(comps, notes=None):
     return results
 
 
-KNOWN_PHRASES = (KNOWN_TAIL, KNOWN_DURATION)
+KNOWN_PHRASES = (KNOWN_TAIL, KNOWN_DURATION, KNOWN_DOUBLE_LEFT, KNOWN_FRAG_SHORT)
 
 
 def run(ctx):
@@ -1440,15 +1519,17 @@ def search(ctx):
         keep = [i for i, r in enumerate(results[name]) if r is not None]
         cases = [cases[i] for i in keep]
         table = {json.dumps(c, sort_keys=True): results[name][i] for c, i in zip(cases, keep)}
-        ctx.check_oracle("search/" + name, cases, lambda c, t=table: t[json.dumps(c, sort_keys=True)][0],
-                         lambda c, o, t=table, oracle=oracle: oracle(c, o, t[json.dumps(c, sort_keys=True)][1]))
+        def orc(c, o, t=table, oracle=oracle):
+            msg = oracle(c, o, t[json.dumps(c, sort_keys=True)][1])
+            return None if msg and any(k in msg for k in KNOWN_PHRASES) else msg    # search looks for NEW failures only
+        ctx.check_oracle("search/" + name, cases, lambda c, t=table: t[json.dumps(c, sort_keys=True)][0], orc)
 
 
-KIND_OF = {"find_peaks": "findpeaks", "store_downsampled": "store", "sum_waveform": "sumwf", "merge_peaks": "merge",
+KIND_OF = {"local_minimum_split_points": "lmsplit", "find_peaks": "findpeaks", "store_downsampled": "store", "sum_waveform": "sumwf", "merge_peaks": "merge",
            "replace_merged": "replace", "add_lone_hits": "lone", "split_peaks": "split", "symmetric_moving_average": "sma",
            "index_of_fraction": "iof", "compute_widths": "widths", "highest_density_region": "hdr"}
 ORACLES = {"findpeaks": oracle_findpeaks, "store": oracle_store, "sumwf": oracle_sumwf, "merge": oracle_merge, "replace": oracle_replace,
-           "lone": oracle_lone, "split": oracle_split, "splitreal": oracle_splitreal, "sma": oracle_sma, "iof": oracle_iof,
+           "lone": oracle_lone, "split": oracle_split, "splitreal": oracle_splitreal, "lmsplit": oracle_lmsplit, "sma": oracle_sma, "iof": oracle_iof,
            "widths": oracle_widths, "hdr": oracle_hdr}
 
 
